@@ -53,7 +53,7 @@ SPEC_MUTANTS = {
     'pow-noverify': 'FamSmall',       # parse_power does not compare the base indices with the summed indices: a_i^(A_ii)
 }
 
-ACTIONS = ['ANum', 'AVar', 'ABadVar', 'AWrap', 'ACall', 'ABadCall', 'APowInt', 'APowScoped', 'ATerm', 'AFrac', 'ANeg', 'ASum', 'AFinish']
+ACTIONS = ['ANum', 'AVar', 'ABadVar', 'AV1Leaf', 'AWrap', 'ACall', 'ABadCall', 'APowInt', 'APowScoped', 'ATerm', 'AFrac', 'ANeg', 'ASum', 'AFinish']
 
 
 def run_tlc(tag, fams, *, bare=False, bug='', emitmin=0, simulate=None, depth=None, seed=0, coverage=False, timeout=900):
@@ -74,12 +74,12 @@ def stratified(cases, per_class, per_valid, rng):
     'at most per_class cases of every (verdict, rule) class, at most per_valid valid ones'
     groups = collections.defaultdict(list)
     for c in cases:
-        groups[c['ok'], c['why']].append(c)
+        groups[c['ok'], c['why'], c['ok1'], c['why1']].append(c)
     out = []
     for key in sorted(groups):
         g = groups[key]
         g.sort(key=lambda c: ''.join(c['t']))
-        n = per_valid if key[0] == 'ok' else per_class
+        n = per_valid if 'ok' in (key[0], key[2]) else per_class
         if len(g) > n:
             g = rng.sample(g, n)
         out.extend(g)
@@ -92,12 +92,12 @@ def model_phase(rep):
     quick = rep.tier == 'quick'
     # exhaustive runs: lists of families, one TLC process each
     if quick:
-        exh = [['FamCore', 'FamMut', 'FamMut3', 'FamCor', 'FamRank3', 'FamGen', 'FamPerm', 'FamSummed']]
+        exh = [['FamCore', 'FamRank3', 'FamGen', 'FamPerm', 'FamSummed', 'FamMut', 'FamMut3', 'FamCor', 'FamV1q']]
         sim = ['FamSimV', 'FamSimM', 'FamSimC', 'FamSimVO']
     else:
-        exh = [['FamCore0', 'FamMut2', 'FamMut3', 'FamCor2', 'FamRank3', 'FamGen'], ['FamPerm2', 'FamSummed3'], ['FamThree'], ['FamThreeV']]
+        exh = [['FamCore0', 'FamMut2', 'FamMut3', 'FamCor2', 'FamRank3', 'FamGen'], ['FamPerm2', 'FamSummed3', 'FamV1', 'FamV1b'], ['FamThree'], ['FamThreeV']]
         sim = ['FamSimV', 'FamSimW', 'FamSimM', 'FamSimC', 'FamSimVO', 'FamSimWO']
-    nsim = 100 if quick else 3000
+    nsim = 60 if quick else 1500
     mutants = ['trace-noshift'] if quick else sorted(SPEC_MUTANTS)
     tmo = 500 if quick else 2400
     jobs = {}
@@ -105,10 +105,10 @@ def model_phase(rep):
         jobs['exhaustive%d' % i] = (lambda i, fams: lambda: run_tlc('c19-exh%d' % i, fams, timeout=tmo))(i, fams)
     jobs['simulate'] = lambda: run_tlc('c19-sim', sim, emitmin=2, simulate=nsim, depth=24, seed=rep.seed + 19, timeout=tmo)
     # vacuity guard: per-action coverage of the bare machine on the families that enable every action
-    jobs['coverage'] = lambda: run_tlc('c19-cover', ['FamMut', 'FamMut3', 'FamCor'], bare=True, coverage=True, timeout=tmo)
+    jobs['coverage'] = lambda: run_tlc('c19-cover', ['FamCov'], bare=True, coverage=True, timeout=tmo)
     for bug in mutants:
         jobs['mutant:' + bug] = (lambda bug: lambda: run_tlc('c19-mutant-' + bug, [SPEC_MUTANTS[bug]], bug=bug, timeout=tmo))(bug)
-    with concurrent.futures.ThreadPoolExecutor(max_workers=4 if quick else 6) as pool:
+    with concurrent.futures.ThreadPoolExecutor(max_workers=6) as pool:
         futs = {k: pool.submit(f) for k, f in jobs.items()}
         results = {k: f.result() for k, f in futs.items()}
     rep.lap('tlc')
@@ -158,14 +158,14 @@ def replay_phase(rep, tables, byfam, sim):
     quick = rep.tier == 'quick'
     R = c19_ns.Replayer(tables)
     per_class = 400 if quick else 100000         # invalid strings replayed per (family, violated rule): refusals are cheap
-    per_valid = 120 if quick else 100000         # valid strings replayed per family
+    per_valid = 120 if quick else 4000           # valid strings replayed per family
     worst = {}
     seen = set()
     status = {}          # (string, verdict) -> [case, family, judged engines, skipped engines]
     pending = []
 
     def record(c, name, eng, o):
-        st = status[c19_ns.text(c), c['ok']]
+        st = status[c19_ns.text(c), c.get('key_ok', c['ok'])]
         if o.kind == 'skip':
             st[3] += 1
             if eng != 'v2parser':
@@ -187,7 +187,7 @@ def replay_phase(rep, tables, byfam, sim):
         outs = R.evaluate([p for p, _ in pending])
         best = {}
         for (p, name), o in zip(pending, outs):
-            k = (c19_ns.text(p.case), p.case['ok'], p.engine)
+            k = (c19_ns.text(p.case), p.case.get('key_ok', p.case['ok']), p.engine)
             if k not in best or (o.kind == 'violation' and best[k][2].kind != 'violation'):
                 best[k] = (p.case, name, o, p.engine)
         for c, name, o, eng in best.values():
